@@ -1002,7 +1002,10 @@ impl FseEncoder {
     
     /// Parallel compression for large data (real implementation)
     fn compress_parallel(&mut self, data: &[u8], num_blocks: usize) -> Result<Vec<u8>> {
-        let block_size = self.config.block_size;
+        // The decoder recognises the block container by its block count (2..=64, see `decompress`), and every block
+        // gets a thread of its own: never cut the input into more than 64 blocks
+        const MAX_BLOCKS: usize = 64;
+        let block_size = self.config.block_size.max((data.len() + MAX_BLOCKS - 1) / MAX_BLOCKS).max(1);
         let chunks: Vec<&[u8]> = data.chunks(block_size).collect();
         
         // If we don't have enough chunks for parallelization, fall back to single-threaded
